@@ -117,7 +117,10 @@ def oracleC04 (c : TCase) : Verdict :=
   match contentLengthOf c with
   | none => .ok
   | some N =>
-  let st := c.lines.foldl (fun (s : C04St) t =>
+  -- the flow that carries the body: after a redirect, the one `as_new_flow` returned
+  let lines := match (c.lines.reverse.span (fun t => !(t.kw == "follow" && t.res.headD "" == "flow"))).1.reverse with
+    | ls => ls
+  let st := lines.foldl (fun (s : C04St) t =>
     if s.fail.isSome || s.needFull then s else
     if t.st != "sendBody" && t.kw != "proceed" && t.kw != "proceed!" then s else
     match t.kw with
